@@ -184,6 +184,13 @@ func (fr *Frame) preludeCall(st *State, name string, fn *ssa.Function, args []Va
 			return Val{T: Forall(bs, Implies(And(facts...), body))}, true
 		}
 		return Val{T: Exists(bs, And(append(facts, body)...))}, true
+	case "__distinctRefs":
+		// two references of different Go types (which Go cannot compare) denote different objects
+		x, y := unboxArg(args[0].T), unboxArg(args[1].T)
+		if x.Sort != SRef || y.Sort != SRef {
+			ex.unsupported("distinctRefs on non-reference values")
+		}
+		return Val{T: Or(Eq(x, TNull), Eq(y, TNull), Neq(x, y))}, true
 	case "__witness":
 		// always true; its only purpose is to put the term x into the formula so that the solver's
 		// E-matching has something to instantiate an existential's bound variable with
